@@ -75,6 +75,12 @@ Snapshot(w) ==
        ELSE UNCHANGED <<queue, tracked, cnt, ovf, nev>>
     /\ UNCHANGED <<limit, qcap, agg, rep, popped>>
 
+\* ServerStats::clear() on both recorders of worker w: every counter, the tracked set and the overflow count start over
+ClearAll(w) ==
+    /\ tracked' = [tracked EXCEPT ![w] = {}] /\ cnt' = [cnt EXCEPT ![w] = AllZero] /\ ovf' = [ovf EXCEPT ![w] = 0]
+    /\ agg' = [agg EXCEPT ![w] = Zero] /\ nev' = [nev EXCEPT ![w] = 0]
+    /\ UNCHANGED <<limit, qcap, queue, rep, popped>>
+
 Merge ==
     /\ queue # <<>>
     /\ LET s == Head(queue) IN
